@@ -453,7 +453,7 @@ class AbsInt:
                 return True
             if d in ("max", "min", "abs") and e.args:
                 return all(self.intlike(st, a) for a in e.args)
-            if isinstance(e.func, ast.Attribute) and e.func.attr == "item" and not e.args:
+            if isinstance(e.func, ast.Attribute) and e.func.attr in ("item", "argmin", "argmax") and not e.args:
                 return True
         return False
 
@@ -784,9 +784,15 @@ class AbsInt:
         if isinstance(s, ast.For):
             body_names |= {n.id for n in ast.walk(s.target) if isinstance(n, ast.Name)}
         out_states = []
+        mono = self._monotone_vars(s)
         for st in states:
             entry = st.copy()
+            pre_vals = {v: st.env[v] for v in mono if v in st.env}
             self.havoc(entry, body_names, s.lineno)
+            for v, pv in pre_vals.items():
+                a = Lin.atom(entry.sver[v])
+                entry.env[v] = a
+                entry.add(ge(a, pv) if mono[v] > 0 else le(a, pv))
             entry.trace = entry.trace + (("L", s.lineno),)
             if isinstance(s, ast.For):
                 self.bind_loop_target(entry, s)
@@ -799,6 +805,10 @@ class AbsInt:
                         self.block(s.body, [ns])
             post = st.copy()
             self.havoc(post, body_names, s.lineno)
+            for v, pv in pre_vals.items():
+                a = Lin.atom(post.sver[v])
+                post.env[v] = a
+                post.add(ge(a, pv) if mono[v] > 0 else le(a, pv))
             # a `while True` loop without break never completes normally
             if isinstance(s, ast.While) and isinstance(s.test, ast.Constant) and s.test.value is True \
                     and not self._has_break(s):
@@ -808,6 +818,28 @@ class AbsInt:
                 posts = self.block(s.orelse, posts) + ([post.copy()] if self._has_break(s) else [])
             out_states.extend(posts)
         return out_states
+
+    def _monotone_vars(self, loop):
+        """variables whose only modifications inside the loop are `v += c` (c >= 0 const) -> +1, or `v -= c` -> -1"""
+        mods = {}
+        for n in (x for b in loop.body for x in ast.walk(b)):
+            if isinstance(n, ast.AugAssign) and isinstance(n.target, ast.Name):
+                c = const_value(n.value)
+                if isinstance(n.op, (ast.Add, ast.Sub)) and isinstance(c, int) and c >= 0:
+                    sign = 1 if isinstance(n.op, ast.Add) else -1
+                    mods.setdefault(n.target.id, set()).add(sign)
+                else:
+                    mods.setdefault(n.target.id, set()).add(0)
+            elif isinstance(n, ast.Assign):
+                for t in n.targets:
+                    for x in ast.walk(t):
+                        if isinstance(x, ast.Name) and isinstance(x.ctx, ast.Store):
+                            mods.setdefault(x.id, set()).add(0)
+            elif isinstance(n, (ast.For, ast.comprehension)):
+                for x in ast.walk(n.target):
+                    if isinstance(x, ast.Name):
+                        mods.setdefault(x.id, set()).add(0)
+        return {v: next(iter(sg)) for v, sg in mods.items() if len(sg) == 1 and 0 not in sg}
 
     def _has_break(self, loop):
         def walk(stmts):
